@@ -22,7 +22,7 @@ import numpy as np
 from ..kit import cnat, cq, cql, cz, czl, frac
 
 HDR = ("From Coq Require Import List ZArith QArith.\n"
-       "From NV.C10 Require Import Model.\n")
+       "From NV.C10 Require Import Model SplineModel.\n")
 
 
 # ----------------------------------------------------------------------------
@@ -811,6 +811,139 @@ def sec_formulae(ck, FM):
 
 
 # ----------------------------------------------------------------------------
+# section 2b: natural splines (formulae.natural_spline, design.natural_spline)
+# ----------------------------------------------------------------------------
+def spline_want(order, knots, intercept, xs):
+    """independent statement (Fractions): names and columns of the spline basis; x**0 = 1, knot function 0 up to and
+    including the knot, (x-k)**order after it"""
+    cols = [(i, "poly", [Fraction(x) ** i for x in xs]) for i in range(order + 1)]
+    cols += [(order + 1 + j, "knot", [(Fraction(x) - k) ** order if x > k else Fraction(0) for x in xs]) for j, k in enumerate(knots)]
+    return cols if intercept else cols[1:]
+
+
+def sec_spline(ck, FM, DS):
+    """natural_spline(t, knots, order, intercept).design(data) and fmri.design.natural_spline(tvals, ...):
+    orders 0..4 (order 0 = piecewise-constant basis), 0..5 knots in any order (repeated knots, knots outside the data),
+    data that hit knots exactly / lie left / right / between, float64 / float32 / int64 / int32 fields, knots written
+    as ints or floats, optional arguments omitted.  Columns are read BY NAME (ns_<i>(<term>))."""
+    import re
+    rng = ck.rng("spline")
+    B = Batch(ck, "natural_spline/model-vs-impl", lambda r: "natural_spline(%s, knots=%s, order=%s, intercept=%s) on %s -> impl names %s rows %s" % (
+        r["term"], r["knots"], r["order"], r["intercept"], r["data"], r["impl_names"], r["impl_rows"]))
+    N = ck.n(90, 900)
+    n_named = n_wrap = n_many = 0
+    for i in range(N):
+        order = i % 5                                      # 0,1,2,3,4
+        nk = [1, 2, 0, 3, 1, 5, 2][i % 7] if i % 11 else 8  # now and then more than 10 functions (names ns_10.. sort before ns_2)
+        kmode = ["increasing", "unsorted", "repeated", "outside-data"][(i // 5) % 4]
+        den = [1, 2, 4][i % 3]
+        if kmode == "outside-data":
+            knots = [Fraction(int(v)) for v in rng.integers(5, 8, size=nk)]
+        else:
+            knots = [dy(rng, -3, 3, den) for _ in range(nk)]
+        if kmode == "increasing":
+            knots = sorted(set(knots))
+        elif kmode == "repeated" and knots:
+            knots = knots + [knots[0]]
+        intercept = bool((i // 2) % 2)
+        dt = ["float64", "float64", "int64", "float32", "int32"][(i // 3) % 5]
+        if dt in ("int64", "int32"):
+            xs = [Fraction(int(v)) for v in rng.integers(-4, 5, size=int(rng.integers(1, 7)))] + [Fraction(int(k)) for k in knots[:2] if k.denominator == 1]
+        else:
+            xs = list(knots[:3]) + [k + Fraction(1, 4) for k in knots[:1]] + [k - Fraction(1, 4) for k in knots[:1]] + \
+                 [dy(rng, -4, 4, 4) for _ in range(int(rng.integers(1, 5)))] + [Fraction(0)]
+        order_f = "order-0" if order == 0 else "order>=1"
+        tname = ["x", "t", "age", "Zed"][i % 4]
+        num = nat if i % 2 else fl
+        kw = {}
+        if knots or i % 3:
+            kw["knots"] = [num(k) for k in knots]
+        if order != 3 or i % 2:
+            kw["order"] = order
+        want = spline_want(order, knots, intercept, xs)
+        rp = {"term": tname, "knots": [str(k) for k in knots], "order": order, "intercept": intercept, "data": [str(x) for x in xs],
+              "field_dtype": dt, "kwargs": {k: (v if k != "knots" else [repr(a) for a in v]) for k, v in kw.items()}}
+        data = np.array([fl(x) for x in xs]).astype(dt).view(np.dtype([(tname, dt)]))
+        ck.count(("spline", order, tuple(knots), intercept, tuple(xs), dt), nontrivial=bool(knots), bucket="spline:%s/%s/%s" % (order_f, kmode, dt))
+        n_many += len(want) > 10
+        if not want:
+            continue            # empty Formula: covered by the formulae section (design raises)
+        try:
+            f = FM.natural_spline(FM.Term(tname), intercept=intercept, **kw) if (intercept or i % 2) else FM.natural_spline(FM.Term(tname), **kw)
+            terms = list(f.terms)
+            d = f.design(data)
+            names = list(d.dtype.names)
+            Dm = np.asarray(f.design(data, return_float=True), dtype=float).reshape(len(xs), -1)
+        except Exception as e:  # noqa
+            ck.fail("natural_spline/raises/" + order_f, "natural_spline(...).design raised %s: %s" % (type(e).__name__, e), rp)
+            continue
+        # docstring: len(knots) + order (+1) terms, all distinct
+        if len(terms) != len(want) or len(set(str(t) for t in terms)) != len(terms):
+            ck.fail("natural_spline/term-count/" + order_f, "%d terms (%d distinct) for %d knots, order %d, intercept=%s: expected %d" % (
+                len(terms), len(set(str(t) for t in terms)), len(knots), order, intercept, len(want)), dict(rp, terms=[str(t) for t in terms]))
+            continue
+        # terms in listing order are ns_s(t), ns_{s+1}(t), ...
+        idx_terms = []
+        for t in terms:
+            m = re.fullmatch(r"ns_(\d+)\(%s\)" % re.escape(tname), str(t))
+            idx_terms.append(int(m.group(1)) if m else None)
+        if idx_terms != [w[0] for w in want]:
+            ck.fail("natural_spline/term-names", "terms %s, expected ns_%s" % ([str(t) for t in terms], [w[0] for w in want]), dict(rp, terms=[str(t) for t in terms]))
+            continue
+        if sorted(names) != sorted(str(t) for t in terms):
+            ck.fail("design/field-names/natural_spline", "recarray fields %s for terms %s" % (names, [str(t) for t in terms]), dict(rp, fields=names))
+            continue
+        # every column, read by name, is the spline function evaluated on the data
+        impl_rows_ok = True
+        impl_cols = {}
+        for idx, kind, col in want:
+            nm = "ns_%d(%s)" % (idx, tname)
+            got = fracs(d[nm])
+            impl_cols[idx] = got
+            if got != col:
+                impl_rows_ok = False
+                k = None if kind == "poly" else knots[idx - order - 1]
+                bad = [r for r in range(len(xs)) if got[r] != col[r]][0]
+                where = "" if kind == "poly" else ("/datum-at-knot" if xs[bad] == k else "/datum-left-of-knot" if xs[bad] < k else "/datum-right-of-knot")
+                ck.fail("natural_spline/column-not-spline-function/%s/%s-column%s" % (order_f, kind, where),
+                        "column %s at %s = %s is %s, the spline function %s gives %s" % (
+                            nm, tname, xs[bad], got[bad], "x**%d" % idx if kind == "poly" else "(x-%s)**%d * (x > %s)" % (k, order, k), col[bad]),
+                        dict(rp, column=nm, datum=str(xs[bad]), impl=str(got[bad]), expected=str(col[bad])))
+                break
+        n_named += 1
+        if Dm.shape[1] != len(names) or any(fracs(Dm[:, j]) != fracs(d[nm]) for j, nm in enumerate(names)):
+            ck.fail("design/float-vs-named-fields/natural_spline", "design(return_float=True) columns differ from the recarray fields %s" % names,
+                    dict(rp, float=Dm.tolist()))
+        # fmri.design.natural_spline = the same design on a field 't' (column order = field order of the formula's design)
+        if dt == "float64" or i % 2:
+            try:
+                kw2 = dict(kw)
+                if not intercept or i % 2:
+                    kw2["intercept"] = intercept          # default of the wrapper is True
+                W = np.asarray(DS.natural_spline(np.array([fl(x) for x in xs]).astype(dt), **kw2), dtype=float).reshape(len(xs), -1)
+                wn = [int(re.fullmatch(r"ns_(\d+)\(.*\)", nm).group(1)) for nm in names]
+                if W.shape[1] != len(want) or any(fracs(W[:, j]) != dict((w[0], w[2]) for w in want)[ix] for j, ix in enumerate(wn)):
+                    ck.fail("design.natural_spline/columns/" + order_f, "fmri.design.natural_spline(%s, %s) columns are not the spline functions (in field order %s)" % (
+                        [str(x) for x in xs], kw2, wn), dict(rp, wrapper_kwargs=repr(kw2), impl=W.tolist()))
+                n_wrap += 1
+            except Exception as e:  # noqa
+                ck.fail("design.natural_spline/raises", "fmri.design.natural_spline raised %s: %s" % (type(e).__name__, e), rp)
+        # model
+        rows = [[impl_cols[w[0]][r] for w in want] for r in range(len(xs))]
+        mt = "(ns_names (natural_spline %d %s %s), ns_design %d %s %s %s)" % (
+            order, cql(knots), "true" if intercept else "false", order, cql(knots), "true" if intercept else "false", cql(xs))
+        B.add("ns_agrees %d %s %s %s [%s] [%s]" % (order, cql(knots), "true" if intercept else "false", cql(xs),
+                                                     "; ".join("%d%%nat" % v for v in idx_terms), "; ".join(cql(r) for r in rows)),
+              mt, dict(rp, impl_names=idx_terms, impl_rows=[[str(v) for v in r] for r in rows]))
+        if i in (0, 5):
+            ck.sample({"call": "natural_spline(Term(%r), %s, intercept=%s).design" % (tname, kw, intercept), "data": [str(x) for x in xs],
+                       "fields": names, "rows": [[str(v) for v in r] for r in rows[:4]]})
+    n = B.run()
+    ck.section("natural_spline", cases=N, named_designs=n_named, wrapper_cases=n_wrap, model_cases=n, cases_with_more_than_10_functions=n_many,
+               note="with more than 10 functions Formula.design orders the fields by NAME (ns_10 before ns_2): columns are compared by name")
+
+
+# ----------------------------------------------------------------------------
 # section 3: contrasts and design bookkeeping
 # ----------------------------------------------------------------------------
 def sec_contrasts(ck, FM):
@@ -1144,6 +1277,7 @@ def run(ck):
     sec_interp(ck, U)
     sec_conv(ck, U)
     sec_formulae(ck, FM)
+    sec_spline(ck, FM, DS)
     sec_contrasts(ck, FM)
     sec_stack(ck, DS)
     sec_event_block_design(ck, U, DS, FM)
